@@ -48,7 +48,7 @@ def run_unit(name, template, canary=False, timeout=600, rlimit=None):
     gen = os.path.join(VDIR, name + ("_canary" if canary else "") + ".rs")
     res = {"unit": name, "canary": canary, "template": template}
     try:
-        u = Unit(tpath, canary=canary).build()
+        u = Unit(tpath, canary=canary, baseline=load_fingerprints().get(name, {})).build()
         report = u.write(gen)
     except ExtractError as e:
         res.update(status="extract-error", detail=str(e))
